@@ -12,6 +12,13 @@ schedule below, a corpus case replayed on the real code and a narrow oracle sign
 What is proved instead (`_partial`) is the full claim for every history without expiring
 entries (books: also without `clear`); provenance of `get` answers holds for every history.
 
+The background cleanup task (`start_cleanup_task`, one tick = `Op.sweep`) is a thread of the
+same model: it is included in every theorem above, the books are proved WITH expiring entries
+for put / remove / sweep histories (`mem_books_pending_sweep`), and the clause "a value written
+after an entry expired is not deleted by a reader that had seen the old entry" is proved for
+this reader at full strength (`mem_sweep_spares_fresh_put`, `mem_sweep_spares_live_entries`),
+with a kernel-checked witness that a sweep removing unconditionally violates it.
+
 Second part (namespace `Cascette.Props.C11.Disk`): DiskCache cut at the `disk.*` schedule points
 (Model/DiskConc, a directory of names over inodes): books at every moment for put / contains /
 remove histories, puts of threads with separate file names (no failure, every value retrievable,
@@ -89,6 +96,7 @@ theorem mem_get_reads_some_put (cfg : Config) (vic : Store → Nat → List Key)
     | contains k => trivial
     | remove k => trivial
     | clear => trivial
+    | sweep ord => trivial
   have h := runSched_inv (machine cfg vic) (WInv Wr) (fun y i => winv_stepAt cfg vic y i) sched _ h0
   exact (h.threads t ht).2.2 _ hr k v rfl rfl
 
@@ -131,6 +139,143 @@ theorem mem_clear_races_put_witness :
       [0, 0, 1, 1, 1, 0, 0]
     quiescent (machine cfgW (detVic cfgW)) y = true ∧ y.shared.store = [] ∧
     y.shared.count = 1 ∧ y.shared.bytes = 1 ∧ ¬ Books y.shared := by
+  decide
+
+/-! ## the background cleanup task (`MemoryCache::new_with_cleanup`) -/
+
+/-- **books with expiring entries and the cleanup task, at every moment.**  Any number of
+threads, any lists of put / put_with_ttl (expiring or not) / remove / sweep (one tick of the
+cleanup task, any iteration order), any victim choice, ANY schedule, stopped anywhere: the
+counters plus what the threads still owe them equal the real contents.  The sweep's
+`remove_if(key, |_, e| e.is_expired())` tests the entry stored at that instant and books the
+size of the entry it removed, so a put that re-writes a collected key in between — expiring or
+not, of any size — leaves the books right. -/
+theorem mem_books_pending_sweep (cfg : Config) (vic : Store → Nat → List Key) (s0 : State)
+    (progs : List (List Op)) (sched : List Nat)
+    (hn : NoDup s0.store) (hb : Books s0)
+    (hp : ∀ p ∈ progs, ∀ op ∈ p, OpSw op) :
+    let y := runSched (machine cfg vic) (sys s0 progs) sched
+    y.shared.count + sumF (fun t => pendC t.pc) y.threads = (y.shared.store.length : Int) ∧
+    y.shared.bytes + sumF (fun t => pendB t.pc) y.threads = (sumSize y.shared.store : Int) := by
+  have h := runSched_inv (machine cfg vic) SInv (fun y i => sinv_stepAt cfg vic y i) sched _
+    (sinv_sys hn hb.1 hb.2 hp)
+  exact ⟨h.count, h.bytes⟩
+
+/-- … hence at quiescence `entry_count` and `memory_usage` equal the real contents. -/
+theorem mem_books_quiescent_sweep (cfg : Config) (vic : Store → Nat → List Key) (s0 : State)
+    (progs : List (List Op)) (sched : List Nat)
+    (hn : NoDup s0.store) (hb : Books s0)
+    (hp : ∀ p ∈ progs, ∀ op ∈ p, OpSw op)
+    (hq : quiescent (machine cfg vic) (runSched (machine cfg vic) (sys s0 progs) sched) = true) :
+    Books (runSched (machine cfg vic) (sys s0 progs) sched).shared := by
+  have h := mem_books_pending_sweep cfg vic s0 progs sched hn hb hp
+  have hz := pend_zero_of_quiescent hq
+  dsimp only at h
+  rw [hz.1, hz.2] at h
+  exact ⟨by have := h.1; omega, by have := h.2; omega⟩
+
+/-- the hypotheses are satisfiable by a non-trivial instance: the cache holds an expired entry,
+the cleanup task runs two ticks while one thread re-writes the key (long and short TTL) and
+another removes it -/
+example : (∀ p ∈ [[Op.sweep [0, 1], .sweep []], [.put 0 [9] false, .put 0 [7, 7] true], [.remove 0]],
+    ∀ op ∈ p, OpSw op) ∧ NoDup expired0.store ∧ Books expired0 := ⟨by decide, ⟨rfl, trivial⟩, rfl, rfl⟩
+
+/-- **the sweep leaves alone whatever has not expired** — from ANY state of ANY system: the
+sweeping threads may stand anywhere in their loop, with ANY list of collected keys (so also
+keys whose entry has been re-written since the collection); as long as only they take steps, in
+any order and number, every entry whose TTL has not ended stays stored, unchanged. -/
+theorem mem_sweep_spares_live_entries (cfg : Config) (vic : Store → Nat → List Key) :
+    ∀ (sched : List Nat) (y : Sys State Thread Ev),
+    (∀ i ∈ sched, ∀ t, y.threads[i]? = some t → SweepOnly t) →
+    ∀ (k : Key) (e : Entry), lookup k y.shared.store = some e → e.short = false →
+    lookup k (runSched (machine cfg vic) y sched).shared.store = some e := by
+  intro sched
+  induction sched with
+  | nil => intro y _ k e hl _; exact hl
+  | cons i rest ih =>
+    intro y hs k e hl he
+    have h1 := stepAt_sweeper_spares cfg vic y i (hs i List.mem_cons_self)
+    refine ih (stepAt (machine cfg vic) y i) ?_ k e (h1.2 k e hl he) he
+    intro i' hi' t ht
+    obtain ⟨t0, ht0, himp⟩ := h1.1 i' t ht
+    exact himp (hs i' (List.mem_cons_of_mem _ hi') t0 ht0)
+
+/-- **a value written after an entry expired is not deleted by the sweep that had seen the old
+entry.**  Thread `j` stands before the map step of a `put_with_ttl(k, v, long TTL)`; the other
+threads are anywhere — in particular a cleanup task that has already collected `k` because the
+entry it saw under `k` had expired.  The put inserts, and then the sweeping threads run, any
+number of steps in any order: `k` still holds `v`. -/
+theorem mem_sweep_spares_fresh_put (cfg : Config) (vic : Store → Nat → List Key)
+    (y : Sys State Thread Ev) (j : Nat) (t : Thread) (a : PutArgs)
+    (hj : y.threads[j]? = some t) (hpc : t.pc = .pInsert a) (ha : a.short = false)
+    (sched : List Nat)
+    (hs : ∀ i ∈ sched, ∀ u, (stepAt (machine cfg vic) y j).threads[i]? = some u → SweepOnly u) :
+    (lookup a.k (runSched (machine cfg vic) y (j :: sched)).shared.store).map (·.val) = some a.v := by
+  have hne : t.pc ≠ .idle := by rw [hpc]; exact fun h => by cases h
+  have hins : ∃ e, lookup a.k (stepAt (machine cfg vic) y j).shared.store = some e ∧
+      e.short = false ∧ e.val = a.v := by
+    have hd : ¬ ((machine cfg vic).done t = true) := by
+      show ¬ (Thread.done t = true)
+      unfold Thread.done; rw [hpc]; simp
+    have heq : stepAt (machine cfg vic) y j =
+        { shared := (step cfg vic y.shared t).1, threads := y.threads.set j (step cfg vic y.shared t).2.1,
+          log := y.log ++ (step cfg vic y.shared t).2.2.map (fun e => (j, e)) } := by
+      unfold stepAt
+      rw [hj]
+      simp only [hd]
+      rfl
+    rw [heq]
+    show ∃ e, lookup a.k (step cfg vic y.shared t).1.store = some e ∧ _
+    rw [step_cont cfg vic y.shared hne, hpc]
+    cases hl : lookup a.k (MemCache.tick y.shared).store with
+    | none =>
+      rw [contOp_pInsert_none cfg vic _ hl]
+      exact ⟨_, lookup_cons_self _ _ _, ha, rfl⟩
+    | some old =>
+      rw [contOp_pInsert_some cfg vic _ hl]
+      exact ⟨_, lookup_cons_self _ _ _, ha, rfl⟩
+  obtain ⟨e, hl, he, hv⟩ := hins
+  have := mem_sweep_spares_live_entries cfg vic sched (stepAt (machine cfg vic) y j) hs a.k e hl he
+  show (lookup a.k (runSched (machine cfg vic) (stepAt (machine cfg vic) y j) sched).shared.store).map (·.val) = some a.v
+  rw [this]; exact congrArg some hv
+
+/-- thread 0: one tick of the cleanup task; thread 1: `put 0 [9]` (one byte, long TTL) over the
+expired 3-byte entry.  Schedule: the sweep collects key 0, the writer runs to completion, the
+sweep goes on (`remove_if` → still expired? no → next key). -/
+def sweepRace : List (List Op) := [[.sweep []], [.put 0 [9] false]]
+
+/-- (test, the code as written) the fresh value survives, the books are right -/
+theorem mem_sweep_race_as_written :
+    let y := runSched (machine cfgW (detVic cfgW)) (sys expired0 sweepRace) raceSched
+    quiescent (machine cfgW (detVic cfgW)) y = true ∧
+    y.shared.store.map (fun p => (p.1, p.2.val, p.2.short)) = [(0, [9], false)] ∧
+    y.shared.count = 1 ∧ y.shared.bytes = 1 ∧ y.log = [(1, .put 0 [9])] := by
+  decide
+
+/-- the cleanup loop with an UNCONDITIONAL removal of every collected key (`storage.remove`, or
+a `remove_if` whose closure does not look at the entry stored now) — NOT the code, the variant
+the re-check exists to exclude -/
+def stepU (cfg : Config) (vic : Store → Nat → List Key) (s0 : State) (t : Thread) :
+    State × Thread × List Ev :=
+  match t.pc with
+  | .wRemove k ks =>
+    let s := MemCache.tick s0
+    match lookup k s.store with
+    | some e => ({ s with store := erase k s.store }, { t with pc := .wCount e.size ks }, [.drop k])
+    | none => (s, { t with pc := afterSweep ks }, [])
+  | _ => step cfg vic s0 t
+
+def machineU (cfg : Config) (vic : Store → Nat → List Key) : Machine State Thread Ev :=
+  { step := stepU cfg vic, done := Thread.done }
+
+/-- **⟂ with an unconditional removal the same schedule deletes the fresh put**: the put
+answered `ok` after the entry had expired, nobody removed or cleared anything, and the cache is
+empty — the statement of `mem_sweep_spares_fresh_put` fails for that variant. -/
+theorem mem_sweep_unconditional_deletes_fresh_put_witness :
+    let y := runSched (machineU cfgW (detVic cfgW)) (sys expired0 sweepRace) raceSched
+    quiescent (machineU cfgW (detVic cfgW)) y = true ∧ y.shared.store = [] ∧
+    y.threads.map (·.results) = [[(.sweep [], .unit)], [(.put 0 [9] false, .unit)]] ∧
+    y.log = [(1, .put 0 [9]), (0, .drop 0)] := by
   decide
 
 /-- **linearizability (partial: no expiring entries; `clear` and evictions included).**  For
